@@ -1953,3 +1953,52 @@ def r2_15(rep):
     from engine import KeyFilter
     import c07
     c07.r7_9(KeyFilter(rep, lambda k: "HasVtable" in k or "Sizedness" in k))
+
+
+@RULES.rule("R2.16", "explicit tail padding is only added where nothing else supplies those bytes", floor=2)
+def r2_16(rep):
+    """`--explicit-padding` must not change a size.  Two emitters add bytes AFTER `add_tail_padding` has run: the
+    `bindgen_union_field` blob of a union that is emitted as a struct (it has the union's whole size), and the `_address` byte of a class
+    without sized members.  Tail padding in front of either counts the same bytes twice (`union U{int a; char b[5];}` 12 bytes for 8
+    under --disable-untagged-union; `struct E{};` 2 bytes for 1 — both before the fixes).  (1) in `add_tail_padding` the padding field
+    is unreachable when the record is a union, whatever its Rust representation; (2) in `CompInfo::codegen` the call is unreachable
+    for a zero-sized item."""
+    import itertools
+    from c08 import _reach, _atoms, _ev
+    prog = rep.prog
+    ms = _slt_methods(prog)
+    b = rep.need(ms.get("add_tail_padding"), "StructLayoutTracker::add_tail_padding")
+    pf = [c for c in b.calls(lambda n: n["k"] == "MCall" and n.get("name") == "padding_field")]
+    rep.need(pf, "the padding field built by add_tail_padding")
+
+    def unreachable_when(bb, node, pred, what, key, loc):
+        f = _reach(bb, node)
+        atoms = sorted(_atoms(f, set()))
+        fixed = {a: True for a in atoms if pred(a)}
+        free = [a for a in atoms if a not in fixed]
+        ok = bool(fixed) and not any(_ev(f, dict(zip(free, vs), **fixed)) for vs in itertools.product((False, True), repeat=len(free)))
+        rep.check(ok, key, "not reached when %s" % what if ok else
+                  "still reached when %s (tests on the way: %s): the same bytes are supplied a second time by what is emitted afterwards"
+                  % (what, [a[:60] for a in atoms][:4]), loc)
+    for c in pf:
+        unreachable_when(b, c, lambda a: a.endswith("CompInfo::is_union(param:self.codegen::struct_layout::StructLayoutTracker::comp)") or
+                         ("CompInfo::is_union(" in a and "StructLayoutTracker::comp" in a and "!" not in a[:2]),
+                         "the record is a union (Rust union or wrapper struct)", "tail-padding:never-for-unions", b.loc(c))
+    cg = rep.need(prog.impl_fn("codegen::CodeGenerator", "ir::comp::CompInfo", "codegen"), "<CompInfo as CodeGenerator>::codegen")
+    calls = [c for c in cg.calls(lambda n: n["k"] == "MCall" and n.get("name") == "add_tail_padding")]
+    rep.need(calls, "the add_tail_padding call in CompInfo::codegen")
+    for c in calls:
+        # `layout.filter(|_| !item.is_zero_sized(ctx))` as the scrutinee of the `if let` counts as the test
+        gs = cg.guards(c, nested=True)
+        via_filter = any(kind in ("cond", "arm", "letelse") and "is_zero_sized" in json.dumps(g if isinstance(g, dict) else g[0].get("scrut", {}))
+                         and "filter" in json.dumps(g if isinstance(g, dict) else g[0].get("scrut", {})) for pol, kind, g in gs)
+        direct = any(kind == "cond" and "is_zero_sized" in cg.canon(g, 8) and (pol is False or cg.canon(g, 8).lstrip("(").startswith("!")) for pol, kind, g in gs)
+        neg_in_filter = False
+        for pol, kind, g in gs:
+            node = g if isinstance(g, dict) else g[0].get("scrut", {})
+            for x in cg.walk(node) if isinstance(node, dict) and "k" in node else []:
+                if x["k"] == "Closure" and "is_zero_sized" in cg.canon(x.get("body", {}), 8):
+                    neg_in_filter = cg.canon(x["body"], 8).lstrip("(").startswith("!")
+        ok = direct or (via_filter and neg_in_filter)
+        rep.check(ok, "tail-padding:never-for-zero-sized", "not reached for an item without sized members" if ok else
+                  "reached for a zero-sized item too: its `_address` byte is emitted after the padding", cg.loc(c))
